@@ -20,6 +20,7 @@ Robustness sweeps of the rules against behaviour-preserving changes of *shape* (
   ret_local    `return <expression>` becomes `_rv = <expression>; return _rv`;
   walrus       `x = E` immediately followed by an `if` whose test evaluates x first becomes `if (x := E) ...`;
   tern_fold    `if c: x = a else: x = b` becomes `x = a if c else b`;
+  ann_assign   `x = v` inside a function becomes the annotated assignment `x: 'object' = v`;
   move_method  every undecorated method (not used by the class body itself) is moved to the end of its class.
 
 Neither changes what the program does, so every finding on such a variant is a false alarm of a rule that matched the
